@@ -155,6 +155,11 @@ class ParameterParser(Logger):
             self.critical('Binning must be defined for SNR instrument')
             raise ValueError('Binning must be defined for SNR instrument')
         else:
+            for key in config:
+                if key not in ('instrument', 'SNR', ):
+                    self.error('SNR instrument does not have parameter %s',
+                               key)
+                    raise KeyError(key)
             SNR = 10
             if 'SNR' in config:
                 SNR = config['SNR']
